@@ -277,3 +277,27 @@ def enu_basis(lat_deg, lon_deg):
     la, lo = math.radians(lat_deg), math.radians(lon_deg)
     sl, cl, so, co = math.sin(la), math.cos(la), math.sin(lo), math.cos(lo)
     return np.array([[-so, co, 0.0], [-sl*co, -sl*so, cl], [cl*co, cl*so, sl]])
+
+
+def level_ellipsoid_gravity(a, f, GM, w):
+    """Equatorial and polar normal gravity of a level ellipsoid (Heiskanen & Moritz 2-73/2-74) with q0, q0'
+    from their power series in the second eccentricity e' (no cancellation; valid for e' < 1, i.e. f <= 0.29):
+        q0  = e'^3 * S,   S  = sum_{k>=1} (-1)^(k+1) 2k/((2k+1)(2k+3)) e'^(2k-2)
+        q0' = e'^2 * S',  S' = sum_{k>=1} (-1)^(k+1) 6 /((2k+1)(2k+3)) e'^(2k-2)
+    so e' q0'/q0 = S'/S (= 3 for the sphere)."""
+    b = a*(1.0 - f)
+    es2 = (a*a - b*b)/(b*b)
+    m = w*w*a*a*b/GM
+    S, Sp, p = [], [], 1.0
+    for k in range(1, 400):
+        c = (2*k + 1)*(2*k + 3)
+        sgn = 1.0 if k % 2 else -1.0
+        S.append(sgn*2*k/c*p)
+        Sp.append(sgn*6.0/c*p)
+        p *= es2
+        if p < 1e-40:
+            break
+    ratio = math.fsum(Sp)/math.fsum(S)
+    ge = GM/(a*b)*(1.0 - m - m*ratio/6.0)
+    gp = GM/(a*a)*(1.0 + m*ratio/3.0)
+    return ge, gp, m
